@@ -11,12 +11,16 @@ import (
 
 // objModel gives a sync object a canonical identity (hash of its first toucher) and a version.
 type objModel struct {
-	id  uint64
-	ver uint64
+	id    uint64
+	ver   uint64
+	nover bool // declared commutative: the order of operations on it is not part of the state identity
 }
 
 //go:norace
 func (o *objModel) bump(e *Exec, t *thread) uint64 {
+	if o.nover {
+		return 0x5eed
+	}
 	if o.id == 0 {
 		o.id = mix(t.hash, 0x51ed) | 1
 	}
@@ -80,6 +84,7 @@ func itoa(i int) string {
 type MutexModel struct {
 	objModel
 	locked bool
+	owner  *thread
 }
 
 // VMutex replaces sync.Mutex in instrumented code.
@@ -99,6 +104,10 @@ func (m *VMutex) Lock() {
 	}
 	block(pending{kind: opLock, mu: &m.m, pc: callerPC()})
 	m.m.locked = true
+	if m.m.nover {
+		m.m.owner = cur.running
+		m.m.owner.commHeld++
+	}
 	m.mu.Lock()
 }
 
@@ -115,9 +124,27 @@ func (m *VMutex) Unlock() {
 		m.mu.Unlock() // fatal error exactly as the real program
 		return
 	}
+	if m.m.nover {
+		if m.m.owner != nil {
+			m.m.owner.commHeld--
+			m.m.owner = nil
+		}
+	} else if !cur.aborting {
+		// releasing is a visible operation (it enables waiters): a scheduling point of its own
+		block(pending{kind: opYield, pc: callerPC(), obj: uintptr(unsafe.Pointer(&m.m))})
+	}
 	m.m.locked = false
 	m.mu.Unlock()
 }
+
+// Commutative declares that critical sections of this mutex commute (they only update counters or
+// sets that no oracle of the harness observes) and contain no scheduling point (checked at run
+// time: violating it is an engine error).  Lock stays a scheduling point, Unlock is not one, and
+// the mutex is left out of transition footprints and of the state identity.  Each use needs a
+// written argument in the harness.
+//
+//go:norace
+func (m *VMutex) Commutative() { m.m.nover = true }
 
 //go:norace
 func (m *VMutex) TryLock() bool {
@@ -175,6 +202,9 @@ func (m *VRWMutex) Unlock() {
 		m.mu.Unlock()
 		return
 	}
+	if !cur.aborting {
+		block(pending{kind: opYield, pc: callerPC(), obj: uintptr(unsafe.Pointer(&m.m))})
+	}
 	m.m.writer = false
 	m.mu.Unlock()
 }
@@ -206,6 +236,9 @@ func (m *VRWMutex) RUnlock() {
 		m.mu.RUnlock()
 		return
 	}
+	if !cur.aborting {
+		block(pending{kind: opYield, pc: callerPC(), obj: uintptr(unsafe.Pointer(&m.m)), readOnly: true})
+	}
 	m.m.readers--
 	m.mu.RUnlock()
 }
@@ -235,6 +268,9 @@ type VWaitGroup struct {
 //go:norace
 func (w *VWaitGroup) Add(d int) {
 	if controlled {
+		if !cur.aborting {
+			block(pending{kind: opYield, pc: callerPC(), obj: uintptr(unsafe.Pointer(&w.m))})
+		}
 		w.m.n += d
 	}
 	w.wg.Add(d)
@@ -300,17 +336,30 @@ func (o *VOnce) Do(f func()) {
 }
 
 //go:norace
-func onceFinish(m *OnceModel) { m.state = onceDone }
+func onceFinish(m *OnceModel) {
+	if controlled && !cur.aborting && cur.running != nil && cur.running.state == stRunning {
+		block(pending{kind: opYield, obj: uintptr(unsafe.Pointer(m))})
+	}
+	m.state = onceDone
+}
 
 // ---------------------------------------------------------------------------------------------
 // atomics (each operation is a scheduling point; the real operation follows)
 
 //go:norace
 func atomicPoint(addr unsafe.Pointer) {
-	if !controlled || cur.aborting {
+	if !controlled || cur.aborting || cur.noAtomicPoints {
 		return
 	}
 	block(pending{kind: opYield, pc: callerPC(), obj: uintptr(addr)})
+}
+
+//go:norace
+func atomicReadPoint(addr unsafe.Pointer) {
+	if !controlled || cur.aborting || cur.noAtomicPoints {
+		return
+	}
+	block(pending{kind: opYield, pc: callerPC(), obj: uintptr(addr), readOnly: true})
 }
 
 func AddInt32(a *int32, d int32) int32 { atomicPoint(unsafe.Pointer(a)); return atomic.AddInt32(a, d) }
@@ -323,10 +372,10 @@ func AddUint64(a *uint64, d uint64) uint64 {
 	atomicPoint(unsafe.Pointer(a))
 	return atomic.AddUint64(a, d)
 }
-func LoadInt32(a *int32) int32    { atomicPoint(unsafe.Pointer(a)); return atomic.LoadInt32(a) }
-func LoadInt64(a *int64) int64    { atomicPoint(unsafe.Pointer(a)); return atomic.LoadInt64(a) }
-func LoadUint32(a *uint32) uint32 { atomicPoint(unsafe.Pointer(a)); return atomic.LoadUint32(a) }
-func LoadUint64(a *uint64) uint64 { atomicPoint(unsafe.Pointer(a)); return atomic.LoadUint64(a) }
+func LoadInt32(a *int32) int32    { atomicReadPoint(unsafe.Pointer(a)); return atomic.LoadInt32(a) }
+func LoadInt64(a *int64) int64    { atomicReadPoint(unsafe.Pointer(a)); return atomic.LoadInt64(a) }
+func LoadUint32(a *uint32) uint32 { atomicReadPoint(unsafe.Pointer(a)); return atomic.LoadUint32(a) }
+func LoadUint64(a *uint64) uint64 { atomicReadPoint(unsafe.Pointer(a)); return atomic.LoadUint64(a) }
 func StoreInt32(a *int32, v int32) {
 	atomicPoint(unsafe.Pointer(a))
 	atomic.StoreInt32(a, v)
@@ -366,7 +415,7 @@ type VAtomicValue struct {
 }
 
 func (v *VAtomicValue) Load() interface{} {
-	atomicPoint(unsafe.Pointer(v))
+	atomicReadPoint(unsafe.Pointer(v))
 	return v.v.Load()
 }
 func (v *VAtomicValue) Store(x interface{}) {
